@@ -5,7 +5,7 @@
    py_int is the executable model of CPython's int() that the extracted model runs with. *)
 From Coq Require Import ZArith NArith List Bool.
 From PydoctorVerif Require Import Base.Sexp Model.Inventory Spec.InventorySpec Proofs.InventoryProofs.
-From PydoctorVerif Require Import Model.InventoryIR Gen.InventoryCode Proofs.InventoryIRProofs.
+From PydoctorVerif Require Import Model.InventoryIR Gen.InventoryCode Proofs.InventoryIRProofs Proofs.InventoryInvProofs.
 Import ListNotations.
 Local Open Scope N_scope.
 
@@ -127,6 +127,21 @@ Theorem C17_code_get_link_is_model :
   forall (links : dict) (name : text),
     get_link_ir code_get_link links name = result_of_link (get_link links name).
 Proof. exact get_link_ir_eq. Qed.
+
+(* the body of SphinxInventory._parseInventory (the loop over payload.splitlines(), try / except ValueError around
+   _parseInventoryLine, self.error + continue, the 'py:' filter, the dict store), translated statement by statement into the
+   second layer of Model/InventoryIR.v: interpreting THAT code gives, for every base url, every payload (every list of
+   lines) and every behaviour of int(), the dict and the list of reports, in order, of the hand model *)
+Theorem C17_code_parse_inventory_is_model :
+  forall (int_of : text -> option Z) (base payload : text),
+    parse_inventory_ir code_parse_inventory int_of base payload
+    = result_of_inventory (parse_inventory (parse_line int_of) base payload).
+Proof. exact code_parse_inventory_is_model. Qed.
+
+Theorem C17_code_parse_inventory_returns :
+  forall (int_of : text -> option Z) (base payload : text),
+    exists d reps, parse_inventory_ir code_parse_inventory int_of base payload = (RReturn (VDict d), reps).
+Proof. exact code_parse_inventory_returns. Qed.
 
 (* hence C17_parse_total stated on the translated code: never IndexError, never stuck, never out of fuel *)
 Theorem C17_code_parse_total :
